@@ -78,6 +78,15 @@ CORPUS = [
 ]
 
 
+def load_corpus():
+    """corpus/C14/*.json (minimised past disagreements / canonical cases) run first; falls back to the built-in list"""
+    import glob
+    import os
+    files = sorted(glob.glob(os.path.join(vlib.VERIF, "corpus", "C14", "*.json")))
+    cs = [json.load(open(f)) for f in files]
+    return cs or CORPUS
+
+
 def obs_term(e):
     if e["k"] == "call":
         return "OCall %d" % e["i"]
@@ -123,7 +132,7 @@ def run(ctx):
     struct_ok = structure_obligation(ctx)
     binp = vlib.go_build(ctx, "./cmd/c14")
     ngen, maxn = (600, 20) if ctx.quick() else (3000, 50)
-    cases = [dict(c, id=i) for i, c in enumerate(CORPUS)]
+    cases = [dict(c, id=i) for i, c in enumerate(load_corpus())]
     if ctx.replay:
         r = json.load(open(ctx.replay))
         if "case" in r and "case" in r["case"]:
